@@ -50,6 +50,10 @@ def check(run):
     acc = [c for c in cc.calls() if (q.callee_name(c) or '').endswith('acceptor::async_accept')]
     run.check(bool(acc) and all(any(q.render(cc, a) == 'm_close' and not p for a, p in q.guards_at(cc, c)) for c in acc), 'R5', 'no-accept-after-stop', H + '::close_connection', cc.loc(),
               'close_connection re-arms accept even when stopping', 'accept re-armed only when !m_close')
+    closes = [c for c in cc.calls() if (c.get('callee') or '').split('::')[-1] == 'close' and q.render(cc, c.get('obj')) == 'm_connection']
+    run.check(bool(closes) and q.on_all_paths(cc, closes), 'R4', 'close-connection-closes', H + '::close_connection', cc.loc(),
+              'a path through close_connection() returns without closing m_connection (e.g. when the server is stopping): the client of a "Connection: close" request, or of a malformed one, never sees the end of the stream',
+              'm_connection.close() on every path')
     # after stop: the acceptor close aborts the pending accept, on_accept must not re-arm
     for g, f in p11.ec_pairs(fx):
         if g.norm == A + '::close':
